@@ -125,6 +125,45 @@ SHAPES_FOR_REGEN = [
 ]
 
 
+class _Suffixed(object):
+    """a Res whose violation signatures say which history they need"""
+
+    def __init__(self, R, suffix):
+        object.__setattr__(self, '_R', R)
+        object.__setattr__(self, '_suffix', suffix)
+
+    def viol(self, sig, *a, **k):
+        return self._R.viol(sig + self._suffix, *a, **k)
+
+    def __getattr__(self, n):
+        return getattr(self._R, n)
+
+    def __setattr__(self, n, v):
+        setattr(self._R, n, v)
+
+
+# ---- what a command does with gentest's $TMPDIR (in-process histories)
+INPROC_KINDS = ['none', 'tmptext', 'tmpfile']
+
+
+def inproc_shape(kind, stem, iters):
+    if kind == 'none':
+        c = mk(out=['plain'], err=['quotes'])
+    elif kind == 'tmptext':
+        c = mk(out=['tmp'], err=['plain'])
+    else:
+        c = mk(out=['plain'], files=[tf('o.txt', TMP, ['plain', 'regex'])])
+    c['iters'] = iters
+    c['stem'] = stem
+    return c
+
+
+def inproc_kind(case):
+    if any(f.get('sub') == TMP for f in case['files']):
+        return 'tmpfile'
+    return 'tmptext' if 'tmp' in case['out'] + case['err'] else 'none'
+
+
 class C11(Check):
     pid = 'C11'
     title = ('gentest: for a repeatable command the generated test exists, '
@@ -139,7 +178,13 @@ class C11(Check):
             '{0,3} x script name {relative, absolute (+bare, no prefix '
             'thorough)}; 1-2 output files of every kind x {cwd, '
             'sub-directory, $TMPDIR} x naming {default, ".", explicit, glob} x '
-            'pre-existing outputs; thorough adds two-line streams, missing '
+            'pre-existing outputs; every rarely used keyword of gentest() at a '
+            'non-default value alone and x file place x naming; the wizard '
+            'entry point; script names differing only in underscores / case '
+            'x spellings of the script argument; histories of two '
+            'generate-and-run cycles in one process whose environment is '
+            'never put back x {no $TMPDIR, $TMPDIR in text, file under '
+            '$TMPDIR}^2; thorough adds two-line streams, missing '
             'final newline, the larger token / file-kind alphabets, '
             'regeneration histories and `python test_x.py` subprocess runs. '
             'non-trivial = generation was not (documentedly) refused and the '
@@ -151,7 +196,13 @@ class C11(Check):
         'the generated script is run from the environment the user invoked '
         'gentest from (os.environ edits made by gentest in its own process '
         'are undone), in-process via ReferenceTestCase.main; thorough binds '
-        'this to `python test_x.py` on a whole layer',
+        'this to `python test_x.py` on a whole layer; layer inproc instead '
+        'keeps whatever gentest and the generated scripts did to os.environ '
+        '(a driver generating and running several tests in one process)',
+        'the wizard is driven through the gentest.actual_input seam; '
+        'no_clobber over an existing script / reference directory must '
+        'refuse and leave both untouched (documented); where test<name>.py '
+        '(no underscore) keeps its references is not documented',
         'gray zones (unspecified, never alarmed): non-zero status without '
         '--non-zero-exit (documented refusal); directory mode with outputs '
         'that already exist (ctime granularity) is not generated; globs never '
@@ -196,7 +247,25 @@ class C11(Check):
              ('cli', 'documented command-line flags -r -m -C -n -O -E -Z '
                      'through the tdda gentest argument parser'),
              ('globdir', 'a glob that matches the directory holding the '
-                         'outputs')]
+                         'outputs'),
+             ('kwargs', 'every rarely used keyword of gentest() at a '
+                        'non-default value (tmp_dir_shell_var None / custom '
+                        'name, max_snapshot_files, relative_paths, '
+                        'no_clobber): alone, x file place x naming x '
+                        'iterations, no_clobber over a previous generation'),
+             ('wizard', 'the question-and-answer wizard (gentest(None, '
+                        'None, ...)) fed through the actual_input seam: '
+                        'shapes x $TMPDIR yes/no x stream / exit / clobber '
+                        'answers x iterations'),
+             ('scriptnames', 'script-name alphabet: stems that differ only '
+                             'in underscores / case x the ways of spelling '
+                             'the script argument (test_<s>.py, absolute, '
+                             '<s>, <s>.py, test<s>.py)'),
+             ('inproc', 'histories of two generate-and-run cycles in ONE '
+                        'process whose environment is never put back: '
+                        '{no $TMPDIR, $TMPDIR in the text, file written '
+                        'under $TMPDIR}^2 x {fresh directory, same '
+                        'directory and another script name} x iterations')]
         if tier == 'thorough':
             L += [('lines2', 'two lines on one stream (ordered token pairs), '
                              'missing final newline'),
@@ -324,7 +393,7 @@ class C11(Check):
                     yield mk(out=['plain', t], err=[t, 'today'], iters=it)
         elif layer == 'encodings':
             for k in ('latintxt', 'latincsv', 'latinlong', 'crlf', 'nultxt',
-                      'latin'):
+                      'latin', 'utf8txt', 'bomtxt', 'bomascii'):
                 for sub in (0, 1):
                     for sp in ('dir', 'explicit', 'glob'):
                         for it in (1, 2):
@@ -370,6 +439,78 @@ class C11(Check):
                             yield mk(out=['plain'],
                                      files=[{'kind': k, 'sub': place}],
                                      spec='globdir', pre=pre, iters=it)
+        elif layer == 'kwargs':
+            for kw in gh.KW_POINTS:
+                var = kw.get('tmp_dir_shell_var', 'TMPDIR')
+                for out, err in ((['plain'], []), (['tmp'], ['plain']),
+                                 ([], ['tmp'])):
+                    for it in (1, 2):
+                        yield mk(out=out, err=err, iters=it, kw=kw)
+                for place in (CWD, SUB, TMP, SIB):
+                    if place == TMP and not var:
+                        continue    # nothing makes gentest look there
+                    for sp in specs_for([place], 0):
+                        for k in ('text', 'bin'):
+                            for it in (1, 2):
+                                f = ({'kind': 'bin', 'sub': place}
+                                     if k == 'bin' else
+                                     tf('o.txt', place, ['plain', 'regex']))
+                                yield mk(out=['plain'], err=['tmp'],
+                                         files=[f], spec=sp, iters=it, kw=kw)
+                for op in option_points(scripts=('rel',), iters=(2,)):
+                    yield mk(out=['today'], err=['plain'], kw=kw,
+                             files=[tf('o.txt', CWD, ['plain'])],
+                             spec='explicit', **op)
+            for prev in SHAPES_FOR_REGEN[:4]:
+                for new in SHAPES_FOR_REGEN[:4]:
+                    c = dict(new, kw={'no_clobber': True})
+                    c['prev'] = prev
+                    yield c
+        elif layer == 'wizard':
+            shapes = [dict(files=[], spec='none'),
+                      dict(files=[tf('o.txt', CWD, ['plain', 'quotes'])],
+                           spec='explicit'),
+                      dict(files=[{'kind': 'bin', 'sub': SUB}], spec='dir'),
+                      dict(files=[tf('Report.txt', SIB, ['plain'])],
+                           spec='explicit'),
+                      dict(files=[tf('o.txt', TMP, ['plain'])], spec='none')]
+            answers = [dict(), dict(no_stdout=1), dict(no_stderr=1),
+                       dict(nonzero=1, status=3), dict(kw={'no_clobber': True}),
+                       dict(script='bare'), dict(script='auto')]
+            for sh in shapes:
+                for tmp_yes in (1, 0):
+                    if not tmp_yes and any(f['sub'] == TMP
+                                           for f in sh['files']):
+                        continue
+                    for an in answers:
+                        for it in (1, 2):
+                            c = mk(out=['plain'], err=['tmp'], iters=it,
+                                   **dict(sh, **an))
+                            c['entry'] = 'wizard'
+                            if not tmp_yes:
+                                c['kw'] = dict(c.get('kw') or {},
+                                               tmp_dir_shell_var=None)
+                            yield c
+        elif layer == 'scriptnames':
+            for stem in gh.STEMS:
+                for sc in ('rel', 'abs', 'bare', 'nopfx', 'nound'):
+                    for sh in (dict(files=[], spec='none'),
+                               dict(files=[tf('o.txt', CWD, ['plain'])],
+                                    spec='explicit'),
+                               dict(files=[{'kind': 'bin', 'sub': SUB}],
+                                    spec='dir')):
+                        for it in (1, 2):
+                            yield mk(out=['plain'], err=['today'], iters=it,
+                                     script=sc, stem=stem, **sh)
+        elif layer == 'inproc':
+            for k1 in INPROC_KINDS:
+                for k2 in INPROC_KINDS:
+                    for wipe in (1, 0):
+                        for it in (1, 2):
+                            yield {'seq': [inproc_shape(k1, 'x', it),
+                                           inproc_shape(k2, 'x' if wipe
+                                                        else 'y', it)],
+                                   'wipe': wipe}
         elif layer == 'lines2':
             for a in T:
                 for b in T:
@@ -493,7 +634,7 @@ class C11(Check):
                 continue
             with open(p, 'rb') as f:
                 got = f.read()
-            if got != self.H.expected_file(b, dname, self.H.gtmp):
+            if got != self.H.expected_file(b, dname, b.tmpdir):
                 R.viol('output-altered:%s' % kind,
                        'generation-leaves-outputs-alone',
                        {'case': b.case, 'path': rel}, sub)
@@ -503,6 +644,18 @@ class C11(Check):
         R = Res()
         H = self.H
         sub = None
+        seq = case.get('seq')
+        if seq:
+            # several generate-and-run cycles in ONE process: the process
+            # environment (os.environ, tempfile) is never put back
+            for i, step in enumerate(seq):
+                b = H.build(step, wipe=(i == 0 or bool(case.get('wipe'))),
+                            keep_env=i > 0)
+                Ri = R if i == 0 else _Suffixed(
+                    R, ':after-%s-in-same-process' % inproc_kind(seq[i - 1]))
+                self._one(Ri, b, 'cycle-%d' % (i + 1),
+                          0.03 if i else 0.0, True)
+            return R
         prev = case.get('prev')
         if prev is not None:
             pb = H.build(prev)
@@ -516,11 +669,19 @@ class C11(Check):
             sub = 'second-generation'
         else:
             b = H.build(case)
-        case = b.case
-        before = H.snap(b)
         # outputs that exist already: let the file system clock tick so that
         # "written after the snapshot" does not depend on ctime granularity
-        g = H.generate(b, settle=0.03 if (case.get('pre') or prev) else 0.0)
+        self._one(R, b, sub, 0.03 if (b.case.get('pre') or prev) else 0.0,
+                  False)
+        return R
+
+    def _one(self, R, b, sub, settle, keep_env):
+        """generate, check, run the generated script, check"""
+        H = self.H
+        case = b.case
+        before = H.snap(b)
+        clobbers = os.path.exists(b.script) or os.path.isdir(b.refdir)
+        g = H.generate(b, settle=settle, keep_env=keep_env)
         g['spec'] = case.get('spec')
         R.ev()
         after = H.snap(b)
@@ -528,6 +689,27 @@ class C11(Check):
         has_output = bool(case['out'] or case['err'] or case['files'])
         self.check_untouched(R, b, before, after, g, sub)
 
+        if (case.get('kw') or {}).get('no_clobber') and clobbers:
+            # documented: -C / no_clobber does not overwrite an existing test
+            # script or reference directory
+            mine = lambda snap: dict(
+                (k, v) for k, v in snap.items()
+                if k == os.path.basename(b.script) or k.startswith(
+                    os.path.relpath(b.refdir, b.cwd) + os.sep))
+            R.nontrivial = True
+            R.out('no-clobber:%s' % ('exit' if g['exit'] is not None else
+                                     'raise' if g['exc'] is not None
+                                     else 'generated'))
+            if mine(before) != mine(after):
+                R.viol('no-clobber-overwrites', 'no-clobber-keeps-previous-test',
+                       {'case': case, 'changed': sorted(
+                           k for k in set(mine(before)) | set(mine(after))
+                           if mine(before).get(k) != mine(after).get(k))},
+                       sub)
+            elif g['exit'] is None:
+                R.viol('no-clobber-no-refusal', 'no-clobber-keeps-previous-test',
+                       {'case': case, 'exception': repr(g['exc'])[:200]}, sub)
+            return R
         if spec.refuses(case):
             R.unspec += 1
             R.out('refusal:%s' % ('exit' if g['exit'] is not None else
@@ -572,7 +754,11 @@ class C11(Check):
                    {'case': case, 'error': repr(e)[:300]}, sub)
             return R
         refs = spec.expected_refs(case, basenames)
-        if refs is None:
+        if case['script'] == 'nound':
+            # test<name>.py without the underscore: the documentation does
+            # not say where its references go
+            R.unspec += 1
+        elif refs is None:
             # names of the copies are not documented: every stream / output
             # must still have a reference copy of its own
             R.unspec += 1
@@ -583,12 +769,12 @@ class C11(Check):
                     if os.path.isfile(p):
                         with open(p, 'rb') as f:
                             have.append(f.read())
-            want = [H.expected_file(b, dname, H.gtmp)
+            want = [H.expected_file(b, dname, b.tmpdir)
                     for _, dname, _ in b.files]
             if not case['no_stdout']:
-                want.append(H.expected_stdout(b, H.gtmp))
+                want.append(H.expected_stdout(b, b.tmpdir))
             if not case['no_stderr']:
-                want.append(H.expected_stderr(b, H.gtmp))
+                want.append(H.expected_stderr(b, b.tmpdir))
             pool = list(have)
             lost = []
             for w in want:
@@ -615,12 +801,12 @@ class C11(Check):
                 with open(p, 'rb') as f:
                     got = f.read()
                 if r == 'STDOUT':
-                    want = H.expected_stdout(b, H.gtmp)
+                    want = H.expected_stdout(b, b.tmpdir)
                 elif r == 'STDERR':
-                    want = H.expected_stderr(b, H.gtmp)
+                    want = H.expected_stderr(b, b.tmpdir)
                 else:
                     want = H.expected_file(
-                        b, b.files[basenames.index(r)][1], H.gtmp)
+                        b, b.files[basenames.index(r)][1], b.tmpdir)
                 if got != want:
                     R.viol('reference-content:%s' % (
                         r if r in ('STDOUT', 'STDERR') else
@@ -630,7 +816,7 @@ class C11(Check):
                          'want': repr(want[:200])}, sub)
 
         # ---- run it
-        run = H.run_script(b, code)
+        run = H.run_script(b, code, keep_env=keep_env)
         R.ev()
         if run['hang']:
             R.out('generated-test-hangs')
